@@ -43,6 +43,19 @@ def configs():
     return out
 
 
+def op_two_on_stabilization(g):
+    """two PRs forked from the same stabilization tip, merged one after the
+    other: the second lands on a stabilization branch that moved on (real
+    merge commit on the FIRST target, which every later target must take)"""
+    stabs = [d for d in g.dests() if d.startswith('stabilization/')]
+    if not stabs:
+        return gen.OPENERS['two_prs_same_base'](g)
+    a = g.new_pr(stabs[0])
+    b = g.new_pr(stabs[0])
+    g.m_forward(a, 6)
+    g.m_forward(b, 6)
+
+
 def plan(tier, seed):
     return [{} for _ in range(16)]
 
@@ -76,6 +89,11 @@ def run_shard(spec, acc):
     if spec['tier'] == 'quick':
         directed = [d for d in directed if d[0]['queue_mode'] == 'noqueue' or
                     d[0]['layout'] in ('d2', 'd3')]
+    directed += [({'layout': layout, 'queue_mode': qm,
+                   'cmd_line_options': list(octo)}, op_two_on_stabilization)
+                 for layout in ('s1d2', 's2d2')
+                 for qm in ('noqueue', 'skipqueue')
+                 for octo in ((), ('no_octopus',))]
     runner.run_histories(spec, acc, configs(), prof, MONITORS, n_hist, jobs,
                          openers=openers, soft_cap_s=cap, directed=directed)
 
